@@ -182,6 +182,12 @@ def _tasks(ctx: Ctx, site_cfgs, mids, rng):
     per_sec = 3 if ctx.quick else len(dts)
     tasks = []
     kinds = ("day", "year", "month", "leapday")
+    n_sites = 3 if ctx.quick else 4
+
+    def sites_for(lons, sec, j):
+        return [(LATS[(sec + j + q) % len(LATS)], round(_lon_deg(lon), 6), ALTS[(sec + q) % len(ALTS)])
+                for q, lon in enumerate(lons[:n_sites])]
+
     for sec in sorted({k[0] for k in keys}):
         mine = [dts[(sec * per_sec + j) % len(dts)] for j in range(per_sec)] if ctx.quick else dts
         for j, dt in enumerate(mine):
@@ -191,27 +197,37 @@ def _tasks(ctx: Ctx, site_cfgs, mids, rng):
             key = cands[0]
             classes = sorted(by[key], key=lambda c: (c["theta0"], c["lon"]))
             thetas = sorted({c["theta0"] for c in classes})
-            theta = thetas[(sec + j) % len(thetas)]
-            lons = [c["lon"] for c in classes if c["theta0"] == theta]
-            rng.shuffle(lons)
-            n_sites = 3 if ctx.quick else 4
-            sites = []
-            for q, lon in enumerate(lons[:n_sites]):
-                sites.append((LATS[(sec + j + q) % len(LATS)], round(_lon_deg(lon), 6), ALTS[(sec + q) % len(ALTS)]))
-            kind = kinds[(sec + j) % 4]
-            mid = mids[kind][(sec * 7 + j) % len(mids[kind])]
-            total = dt * key[2]
-            ti = thetas.index(theta)
-            if ti == 0:      # a start in the middle of the day before the boundary
-                t0 = mid - timedelta(days=1) + timedelta(hours=1 + (sec * 5 + j) % 21, minutes=(sec * 13 + j) % 60, seconds=sec)
-            else:            # the run crosses the midnight (after its first / in its last step) where it can
-                want = dt * (1 if ti == 1 else key[2]) - (sec * 3 + j) % max(1, dt // 2)
-                minutes = max(1, -(-(want + sec) // 60)) if want + sec > 60 else 1
-                while minutes > 1 and minutes * 60 - sec > total:
-                    minutes -= 1
-                t0 = mid - timedelta(minutes=minutes) + timedelta(seconds=sec)
-            tasks.append({"id": len(tasks), "start": cal.fmt(t0), "dt": dt, "steps": key[2], "sites": sites,
-                          "boundary": kind, "crosses": t0 < mid <= t0 + timedelta(seconds=total), "theta0": theta})
+            # the spec's Earth-angle class selects where the run sits relative to a midnight
+            for theta in ([thetas[(sec + j) % len(thetas)]] if ctx.quick else thetas):
+                lons = [c["lon"] for c in classes if c["theta0"] == theta]
+                rng.shuffle(lons)
+                ti = thetas.index(theta)
+                kind = kinds[(sec + j + ti) % 4]
+                mid = mids[kind][(sec * 7 + j + ti) % len(mids[kind])]
+                total = dt * key[2]
+                if ti == 0:      # a start in the middle of the day before the boundary
+                    t0 = mid - timedelta(days=1) + timedelta(hours=1 + (sec * 5 + j) % 21, minutes=(sec * 13 + j) % 60,
+                                                              seconds=sec)
+                else:            # the run crosses the midnight (after its first / in its last step) where it can
+                    want = dt * (1 if ti == 1 else key[2]) - (sec * 3 + j) % max(1, dt // 2)
+                    minutes = max(1, -(-(want + sec) // 60)) if want + sec > 60 else 1
+                    while minutes > 1 and minutes * 60 - sec > total:
+                        minutes -= 1
+                    t0 = mid - timedelta(minutes=minutes) + timedelta(seconds=sec)
+                tasks.append({"id": len(tasks), "start": cal.fmt(t0), "dt": dt, "steps": key[2],
+                              "sites": sites_for(lons, sec, j + ti), "boundary": kind,
+                              "crosses": t0 < mid <= t0 + timedelta(seconds=total), "theta0": theta})
+    # long runs (hours to a day, always crossing a midnight): elapsed times beyond the bound TLC explored
+    all_lons = sorted({c["lon"] for c in site_cfgs})
+    long_secs = (1, 13, 29, 30, 47, 59) if ctx.quick else sorted({k[0] for k in keys})
+    for j, sec in enumerate(long_secs):
+        kind = kinds[j % 4]
+        mid = mids[kind][(j * 5 + 3) % len(mids[kind])]
+        dt, steps = (900, 24) if ctx.quick else ((900, 600, 300)[j % 3], 96)
+        t0 = mid - timedelta(seconds=dt * (steps // 3)) - timedelta(minutes=1) + timedelta(seconds=sec)
+        lons = all_lons[j % len(all_lons):] + all_lons[:j % len(all_lons)]
+        tasks.append({"id": len(tasks), "start": cal.fmt(t0), "dt": dt, "steps": steps, "sites": sites_for(lons, sec, j),
+                      "boundary": kind, "crosses": True, "theta0": -1})
     return tasks
 
 
@@ -287,7 +303,7 @@ def run(ctx: Ctx):
                 "seams, latitudes -78..80 deg, altitudes -0.2..3 km); start instants placed by the spec's Earth-angle "
                 "class: mid-day, crossing a midnight after the first step, crossing it in the last step, around "
                 "day/month/leap-day/year ends printed by Calendar.tla; a case = one (start, step, site); all cases are "
-                "non-trivial (>= 4 real steps each)")
+                "non-trivial (>= 4 real steps each); plus long runs (quick 6 x 6 h, thorough 60 x 8-24 h) across a midnight")
     ctx.assumptions = [
         "eci2ecef / lla2ecef of the implementation are used as the projection to Earth-fixed coordinates (subject of C04)",
         "authoritative epoch of step k is start + k*step by datetime arithmetic",
